@@ -41,7 +41,6 @@ package wire
 //@ fieldinv injectorGen.g v != nil
 //@ fieldinv objectCache.fset v != nil
 //@ fieldinv objectCache.packages v != nil
-//@ fieldinv objectCache.objects v != nil
 //@ fieldinv wireErr.error v != nil
 //@ fieldinv InjectorArg.Args v != nil
 
@@ -221,8 +220,6 @@ package wire
 //@ func typeVariableName
 //@   modifies nothing
 //@   ensures [C14] !collides(result)
-//@ func zeroValue
-//@   callsback qf
 
 // slots: argument indices of a call refer to parameters and to earlier locals
 //@ define argsInRange(ig *injectorGen, c *call) = forall j :: 0 <= j && j < len(c.args) ==> 0 <= c.args[j] && c.args[j] < len(ig.paramNames) + len(ig.localNames)
@@ -412,10 +409,6 @@ package wire
 //@   ensures result.1 == nil ==> result.0 != nil
 //@ func processStructProvider
 //@   ensures result.1 == nil ==> result.0 != nil
-//@ func processStructLiteralProvider
-//@   ensures len(result.1) == 0 ==> result.0 != nil
-//@ func processFuncProvider
-//@   ensures len(result.1) == 0 ==> result.0 != nil
 //@ func checkField
 //@   ensures result.1 == nil ==> result.0 != nil
 
@@ -428,8 +421,6 @@ package wire
 //@   requires g != nil
 //@ func Load$1
 //@   requires fn != nil && fset != nil
-//@ func (*objectCache).get$1
-//@   requires oc != nil
 //@ func (*gen).qualifyImport$1
 //@   requires g != nil
 //@ func (*gen).rewritePkgRefs
@@ -448,3 +439,38 @@ package wire
 //@   requires info != nil
 //@ func verifyAcyclic$1
 //@   requires 0 <= i && i < len(outputs) && 0 <= j && j < len(outputs) && outputs[i] != nil && outputs[j] != nil
+
+//@ func zeroValue
+//@   callsback qf
+//@   requires t != nil
+//@ func injectorFuncSignature
+//@   ensures result.2 == nil ==> result.0 != nil && okSig(sig)
+// What the front end hands to processNewSet: one of the five item kinds; provider sets carry their maps.
+//@ define validItem(x interface{}) = (x is *Provider) || ((x is *ProviderSet) && x.(*ProviderSet).providerMap != nil && x.(*ProviderSet).srcMap != nil) || (x is *IfaceBinding) || (x is *Value) || (x is []*Field)
+// The object cache only holds what get computed (published-immutable: entries are never changed).
+//@ fieldinv objectCache.objects v != nil && (forall k objRef :: has(v, k) ==> (len(v[k].errs) == 0 ==> validItem(v[k].val)))
+//@ func (*objectCache).get$1
+//@   requires oc != nil && (len(errs) == 0 ==> validItem(val))
+//@ func (*objectCache).get
+//@   requires obj != nil
+//@   ensures len(errs) == 0 ==> validItem(val)
+//@   loop 1 invariant 0 <= i && i < len(spec.Names)
+//@ func (*objectCache).processExpr
+//@   requires expr != nil
+//@   ensures len(result.1) == 0 ==> validItem(result.0)
+//@ func (*objectCache).processNewSet
+//@   nullable args
+//@   ensures len(result.1) == 0 ==> result.0 != nil && result.0.providerMap != nil && result.0.srcMap != nil
+//@   loop 1 invariant ec != nil && pset != nil && forall k :: 0 <= k && k < len(pset.Imports) ==> pset.Imports[k].providerMap != nil && pset.Imports[k].srcMap != nil
+//@ func (*gen).writeAST
+//@   requires node != nil
+//@ func unexport
+//@   loop 1 invariant 0 <= i && 0 <= sz && i + sz <= len(name)
+//@ func processFuncProvider
+//@   ensures len(result.1) == 0 ==> result.0 != nil
+//@   loop 1 invariant i <= len(provider.Args) && forall k :: 0 <= k && k < i ==> provider.Args[k].Type != nil
+//@   loop 2 invariant i < len(provider.Args) && forall k :: 0 <= k && k <= i ==> provider.Args[k].Type != nil
+//@ func processStructLiteralProvider
+//@   ensures len(result.1) == 0 ==> result.0 != nil
+//@   loop 1 invariant i <= len(provider.Args) && forall k :: 0 <= k && k < i ==> provider.Args[k].Type != nil
+//@   loop 2 invariant i < len(provider.Args) && forall k :: 0 <= k && k <= i ==> provider.Args[k].Type != nil
